@@ -352,6 +352,35 @@ def _after_first_rule_colon(t, ins, rule=None):
 # ---------------------------------------------------------------------------------------------
 
 def interaction_grammar(rng: random.Random):
+    if rng.random() < 0.5:
+        return _interaction_shared_guarded_rule(rng)
+    return _interaction_choice_closing_rule(rng)
+
+
+def _interaction_choice_closing_rule(rng: random.Random):
+    """an ordered choice that is the last thing before its (non-elided) rule closes, whose last alternative can match the
+    empty word, with further nodes following in the parent: after an abandoned attempt the node closes on restored state"""
+    n = name
+    toks = ["ID", "COLON", "LABEL", "NUM", "SEMI", "LP", "RP", "EQ"]
+    first = concat(n("ID"), n("COLON")) if rng.random() < 0.6 else concat(n("ID"), n("EQ"), n("COLON"))
+    alts = [first]
+    if rng.random() < 0.4:
+        alts.append(concat(n("ID"), n("EQ"), n("EQ")))
+    alts.append(opt(n("LABEL")) if rng.random() < 0.7 else star(n("LABEL")))
+    lab_body = choice(*alts)
+    if rng.random() < 0.3:
+        lab_body = concat(n("EQ"), lab_body)
+    e_body = alt(n("ID"), n("NUM"), concat(n("LP"), n("e"), n("RP")))
+    stmt = concat(n("lab"), n("e"), n("SEMI"))
+    if rng.random() < 0.4:
+        stmt = concat(marker(1), n("lab"), n("e"), create(1, "head"), n("SEMI"))
+    rules = [("s", star(n("stmt")), False), ("stmt", stmt, False), ("lab", lab_body, rng.random() < 0.2), ("e", e_body, False)]
+    skip = ["Ws"] if rng.random() < 0.7 else []
+    g = _g(toks + skip, rules, skip=skip, parts=["stmt"] if rng.random() < 0.3 else [])
+    return g, {"profile": "interaction", "features": ["choice", "choice_nullable_last", "star", "alt", "choice_closing_rule"], "skipped": skip}
+
+
+def _interaction_shared_guarded_rule(rng: random.Random):
     """a rule with predicate-guarded alternatives that is (a) tried inside a non-final ordered-choice alternative and
     (b) the first element of a repetition outside any choice; plus a part entry for the shared rule"""
     n = name
